@@ -17,8 +17,11 @@ Open Scope N_scope.
 Section AmendProofs.
   Variable run : N -> list (option N) -> list (option N) -> N -> N.
   Variable amend : N -> list (option N) -> list N.
+  Variable fails : N -> list (option N) -> list (option N) -> bool.
 
   Notation eff := (eff amend).
+  Notation Finished_a := (Finished_a run amend fails).
+  Notation fails_now := (fails_now amend fails).
   Notation eproj := (eproj amend).
   Notation extra_now := (extra_now amend).
 
@@ -70,100 +73,100 @@ Section AmendProofs.
     - exact Hpq.
   Qed.
 
-  (* what is compared: the state of a step and, when it is SUCCEEDED, its outputs *)
-  Definition Rs (y z : sys) (s : step) : Prop :=
-    stt y (sid s) = stt z (sid s) /\
-    (stt y (sid s) = Succeeded -> forall p, In p (out s) -> fs y p = fs z p).
+  (* what is compared: the state of a step (FAILED included) and, when it is SUCCEEDED, its outputs *)
+  Definition Rs (y z : asys) (s : step) : Prop :=
+    stt (abase y) (sid s) = stt (abase z) (sid s) /\
+    (stt (abase y) (sid s) = Succeeded -> forall p, In p (out s) -> fs (abase y) p = fs (abase z) p) /\
+    afail y (sid s) = afail z (sid s).
 
-  Lemma Local_eff (proj : project) (y : sys) (s : step) :
-    Finished_a run amend proj y -> In s proj ->
-    if ready proj y (eff y s)
-    then stt y (sid s) = Succeeded /\
-         forall p, In p (out s) ->
-                   fs y p = Some (run (sid s) (map (fs y) (inp (eff y s))) (map (ev y) (envn s)) p)
-    else stt y (sid s) = Pending.
-  Proof.
-    intros HF Hs. unfold Finished_a, Finished in HF.
-    specialize (HF (eff y s) (in_map (eff y) proj s Hs)). unfold Local in HF.
-    rewrite ready_eproj in HF. exact HF.
-  Qed.
-
-  Lemma amend_agree (proj : project) (y z : sys) :
-    WFA proj -> Finished_a run amend proj y -> Finished_a run amend proj z -> same_world proj y z ->
+  Lemma amend_agree (proj : project) (y z : asys) :
+    WFA proj -> Finished_a proj y -> Finished_a proj z -> same_world proj (abase y) (abase z) ->
     forall todo done, proj = done ++ todo ->
-      (forall p, ~ In p (outs todo) -> avail proj y p = avail proj z p) ->
+      (forall p, ~ In p (outs todo) -> avail proj (abase y) p = avail proj (abase z) p) ->
       (forall s, In s done -> Rs y z s) ->
-      (forall p, avail proj y p = avail proj z p) /\ (forall s, In s proj -> Rs y z s).
+      (forall p, avail proj (abase y) p = avail proj (abase z) p) /\ (forall s, In s proj -> Rs y z s).
   Proof.
     intros Hwf Hy Hz [Hsrc Henv]. pose proof Hwf as (Hid & Hnd & Htopo).
+    set (by_ := abase y) in *. set (bz := abase z) in *.
     induction todo as [|s rest IH]; intros done Hp Hag Hdone.
     - split; [intros p; apply Hag; intros []|]. intros s Hs. apply Hdone.
       rewrite Hp, app_nil_r in Hs. exact Hs.
     - assert (Hs : In s proj). { rewrite Hp. apply in_or_app. right. left. reflexivity. }
       (* inputs of [s] in either state come from before *)
-      assert (Hiny : forall x, In x (inp (eff y s)) -> avail proj y x = avail proj z x).
-      { intros x Hx. apply Hag. exact (eff_inputs_before proj done rest s y x Hwf Hp Hx). }
-      assert (Hinz : forall x, In x (inp (eff z s)) -> avail proj y x = avail proj z x).
-      { intros x Hx. apply Hag. exact (eff_inputs_before proj done rest s z x Hwf Hp Hx). }
-      pose proof (Local_eff proj y s Hy Hs) as Ly. pose proof (Local_eff proj z s Hz Hs) as Lz.
+      assert (Hiny : forall x, In x (inp (eff by_ s)) -> avail proj by_ x = avail proj bz x).
+      { intros x Hx. apply Hag. exact (eff_inputs_before proj done rest s by_ x Hwf Hp Hx). }
+      assert (Hinz : forall x, In x (inp (eff bz s)) -> avail proj by_ x = avail proj bz x).
+      { intros x Hx. apply Hag. exact (eff_inputs_before proj done rest s bz x Hwf Hp Hx). }
+      pose proof (Hy s Hs) as Ly. pose proof (Hz s Hs) as Lz. unfold Local_a in Ly, Lz.
+      fold by_ in Ly. fold bz in Lz. cbv zeta in Ly, Lz.
       (* the result at [s] *)
       assert (HR : Rs y z s).
-      { destruct (forallb (fun p => match avail proj y p with Some _ => true | None => false end) (inp s))
+      { unfold Rs. fold by_ bz.
+        destruct (forallb (fun p => match avail proj by_ p with Some _ => true | None => false end) (inp s))
           eqn:Edecl.
         - (* every declared input is available: same contents, hence the same amended inputs *)
-          assert (Hcont : map (fs y) (inp s) = map (fs z) (inp s)).
+          assert (Hcont : map (fs by_) (inp s) = map (fs bz) (inp s)).
           { apply map_ext_in. intros x Hx. rewrite forallb_forall in Edecl. specialize (Edecl x Hx).
-            assert (Hxe : In x (inp (eff y s))) by (cbn [inp Engine.eff]; apply in_or_app; left; exact Hx).
-            pose proof (Hiny x Hxe) as Ha. destruct (avail proj y x) as [c|] eqn:Ey; [|discriminate].
-            symmetry in Ha. rewrite (avail_fs proj y x c Ey), (avail_fs proj z x c Ha). reflexivity. }
-          assert (Heff : eff z s = eff y s).
+            assert (Hxe : In x (inp (eff by_ s))) by (cbn [inp Engine.eff]; apply in_or_app; left; exact Hx).
+            pose proof (Hiny x Hxe) as Ha. destruct (avail proj by_ x) as [c|] eqn:Ey; [|discriminate].
+            symmetry in Ha. rewrite (avail_fs proj by_ x c Ey), (avail_fs proj bz x c Ha). reflexivity. }
+          assert (Heff : eff bz s = eff by_ s).
           { unfold Engine.eff, Engine.extra_now. rewrite Hcont. reflexivity. }
-          rewrite Heff in Lz.
-          assert (Hr : ready proj y (eff y s) = ready proj z (eff y s)) by (apply ready_ext; exact Hiny).
-          rewrite <- Hr in Lz. destruct (ready proj y (eff y s)) eqn:Er.
-          + destruct Ly as [Sy Fy], Lz as [Sz Fz]. split; [congruence|]. intros _ p Hpo.
-            rewrite (Fy p Hpo), (Fz p Hpo). f_equal. f_equal.
-            * apply map_ext_in. intros x Hx.
-              destruct (ready_avail proj y (eff y s) x Er Hx) as [Ay _].
-              assert (Erz : ready proj z (eff y s) = true) by (symmetry; exact Hr).
-              destruct (ready_avail proj z (eff y s) x Erz Hx) as [Az _].
-              rewrite <- Ay, <- Az. apply Hiny. exact Hx.
-            * apply map_ext. intros n. apply Henv.
-          + split; [congruence|]. intros H. congruence.
+          unfold Engine.fails_now in Ly, Lz. rewrite Heff in Lz.
+          assert (Hr : ready proj by_ (eff by_ s) = ready proj bz (eff by_ s)) by (apply ready_ext; exact Hiny).
+          rewrite <- Hr in Lz. destruct (ready proj by_ (eff by_ s)) eqn:Er.
+          + assert (Hmap : map (fs bz) (inp (eff by_ s)) = map (fs by_) (inp (eff by_ s))).
+            { apply map_ext_in. intros x Hx.
+              destruct (ready_avail proj by_ (eff by_ s) x Er Hx) as [Ay _].
+              assert (Erz : ready proj bz (eff by_ s) = true) by (symmetry; exact Hr).
+              destruct (ready_avail proj bz (eff by_ s) x Erz Hx) as [Az _].
+              rewrite <- Ay, <- Az. symmetry. apply Hiny. exact Hx. }
+            assert (Hmev : map (ev bz) (envn s) = map (ev by_) (envn s)).
+            { apply map_ext. intros n. symmetry. apply Henv. }
+            rewrite Hmap, Hmev in Lz.
+            destruct (fails (sid s) (map (fs by_) (inp (eff by_ s))) (map (ev by_) (envn s))).
+            * destruct Ly as [Sy Fy], Lz as [Sz Fz]. split; [congruence|]. split; [congruence|congruence].
+            * destruct Ly as (Sy & Ay & Fy), Lz as (Sz & Az & Fz). split; [congruence|].
+              split; [|congruence]. intros _ p Hpo. rewrite (Fy p Hpo), (Fz p Hpo). reflexivity.
+          + destruct Ly as [Sy Fy], Lz as [Sz Fz]. split; [congruence|]. split; [congruence|congruence].
         - (* a declared input is unavailable, in [y] and hence in [z]: not ready in either *)
-          assert (Ery : ready proj y (eff y s) = false).
+          assert (Ery : ready proj by_ (eff by_ s) = false).
           { unfold ready. cbn [inp Engine.eff]. rewrite forallb_app, Edecl. reflexivity. }
-          assert (Erz : ready proj z (eff z s) = false).
+          assert (Erz : ready proj bz (eff bz s) = false).
           { unfold ready. cbn [inp Engine.eff]. rewrite forallb_app.
-            assert (E : forallb (fun p => match avail proj z p with Some _ => true | None => false end) (inp s)
+            assert (E : forallb (fun p => match avail proj bz p with Some _ => true | None => false end) (inp s)
                         = false).
-            { transitivity (forallb (fun p => match avail proj y p with Some _ => true | None => false end)
+            { transitivity (forallb (fun p => match avail proj by_ p with Some _ => true | None => false end)
                                     (inp s)); [|exact Edecl].
               apply forallb_ext_in'. intros x Hx.
-              assert (Hxe : In x (inp (eff y s))) by (cbn [inp Engine.eff]; apply in_or_app; left; exact Hx).
+              assert (Hxe : In x (inp (eff by_ s))) by (cbn [inp Engine.eff]; apply in_or_app; left; exact Hx).
               rewrite <- (Hiny x Hxe). reflexivity. }
             rewrite E. reflexivity. }
-          rewrite Ery in Ly. rewrite Erz in Lz. split; [congruence|]. intros H. congruence. }
+          rewrite Ery in Ly. rewrite Erz in Lz. destruct Ly as [Sy Fy], Lz as [Sz Fz].
+          split; [congruence|]. split; [congruence|congruence]. }
       apply (IH (done ++ [s])); [rewrite <- app_assoc; exact Hp| |].
       + intros p Hnr. destruct (in_dec N.eq_dec p (out s)) as [Hps|Hps].
         2:{ apply Hag. change (outs (s :: rest)) with (out s ++ outs rest). intros Hin.
             apply in_app_or in Hin. tauto. }
-        unfold avail. rewrite (producer_of_out proj s p Hnd Hs Hps). destruct HR as [Hst Hfs].
-        rewrite <- Hst. destruct (stt y (sid s)) eqn:Es; cbn; [reflexivity|]. apply Hfs; auto.
+        unfold avail. rewrite (producer_of_out proj s p Hnd Hs Hps). destruct HR as (Hst & Hfs & _).
+        fold by_ bz in Hst, Hfs.
+        rewrite <- Hst. destruct (stt by_ (sid s)) eqn:Es; cbn; [reflexivity|]. apply Hfs; auto.
       + intros q Hq. apply in_app_or in Hq. destruct Hq as [Hq|[<-|[]]]; [exact (Hdone q Hq)|exact HR].
   Qed.
 
   (* A finished state is determined by the sources and the environment. *)
-  Theorem finished_a_unique (proj : project) (y z : sys) :
-    wf_a amend proj -> Finished_a run amend proj y -> Finished_a run amend proj z ->
-    same_world proj y z -> same_result proj y z.
+  Theorem finished_a_unique (proj : project) (y z : asys) :
+    wf_a amend proj -> Finished_a proj y -> Finished_a proj z ->
+    same_world proj (abase y) (abase z) -> same_result_a proj y z.
   Proof.
     intros Hwf0 Hy Hz Hw. pose proof (wf_a_WFA proj Hwf0) as Hwf.
     destruct (amend_agree proj y z Hwf Hy Hz Hw proj [] eq_refl) as [_ HR].
     - intros p Hp. unfold avail. apply producer_none in Hp. rewrite Hp. apply Hw.
       apply is_output_false. apply producer_none. exact Hp.
     - intros s [].
-    - intros s Hs. exact (HR s Hs).
+    - split.
+      + intros s Hs. destruct (HR s Hs) as (H1 & H2 & _). split; assumption.
+      + intros s Hs. destruct (HR s Hs) as (_ & _ & H3). exact H3.
   Qed.
 End AmendProofs.
 
@@ -178,7 +181,7 @@ Definition tab28 : list (N * N * list N) := [(2, 5, [10])].
 Definition w28a : world := (src_of [(2, 5); (3, 7)], fun _ => None).
 Definition w28b : world := (src_of [(2, 6)], fun _ => None).
 Definition bw28 (g : bool) (w : world) (y : asys) : asys :=
-  build_world_a mix_run (amend_tab tab28) g p28 w y.
+  build_world_a mix_run (amend_tab tab28) no_fail g p28 w y.
 
 Lemma D28_engine_refuted :
   let inc g := bw28 g w28b (bw28 g w28a empty_asys) in
@@ -187,12 +190,12 @@ Lemma D28_engine_refuted :
   map (stt (abase (bw28 true w28a empty_asys))) [1; 2] = [Succeeded; Succeeded] /\
   adyn (bw28 true w28a empty_asys) 2 = [10] /\
   (* the code's gating: nothing is dispatched in build B, step 2 stays PENDING; from scratch it runs *)
-  a_build_log mix_run (amend_tab tab28) true p28 p28 (resync_a p28 (bw28 true w28a empty_asys) w28b) = [] /\
+  a_build_log mix_run (amend_tab tab28) no_fail true p28 p28 (resync_a p28 (bw28 true w28a empty_asys) w28b) = [] /\
   map (stt (abase (inc true))) [1; 2] = [Pending; Pending] /\
   map (stt (abase (scr true))) [1; 2] = [Pending; Succeeded] /\
   same_result_b p28 (abase (inc true)) (abase (scr true)) = false /\
   (* without gating the rerun finds out that 10 is no longer wanted *)
-  a_build_log mix_run (amend_tab tab28) false p28 p28 (resync_a p28 (bw28 false w28a empty_asys) w28b)
+  a_build_log mix_run (amend_tab tab28) no_fail false p28 p28 (resync_a p28 (bw28 false w28a empty_asys) w28b)
     = [(2, true)] /\
   same_result_b p28 (abase (inc false)) (abase (scr false)) = true.
 Proof. vm_compute. repeat split; reflexivity. Qed.
